@@ -266,6 +266,16 @@ def r2b_derived_bounds_shape(ctx):
             ctx.ok("liveness-bound|work-x-locals", lb.where(), "per-function events multiplied by the local count")
         else:
             ctx.bad("liveness-bound|not-multiplicative", lb.where(), "the liveness event bound no longer multiplies per-function work with the number of locals")
+        # ... and the local count is the number of locals itself: the cap it is compared with is calibrated in locals (bits of
+        # a live set), so a count converted to 64-bit words makes the preflight 64 times too lenient and liveness then
+        # allocates more bit-set memory than the arena holds
+        for c in good[:1]:
+            fac = [sh(ne(lb.deep(a, 12))) for a in c.args if "local_range" in sh(ne(lb.deep(a, 12)))]
+            scaled = [f for f in fac if re.search(r"div_ceil|next_multiple_of|word_count|\bDiv\(|\bShr\(|\bMul\(", f)]
+            if fac and not scaled:
+                ctx.ok("liveness-bound|locals-unit", lb.where(), "local count = local_range.end - local_range.start")
+            else:
+                ctx.bad("liveness-bound|locals-unit|%s" % (re.findall(r"div_ceil|next_multiple_of|word_count|Div|Shr|Mul", scaled[0])[0] if scaled else "?"), lb.where(), "the local factor of the liveness event bound is `%s`, not the number of locals: the cap max_liveness_events is calibrated in locals, so the limit trips 64 times too late and the analysis exhausts the arena on a program the preflight should have turned away" % (scaled[0][:70] if scaled else fac))
         # the cost model (stated in the function): a sweep touches two block-sized sets per *block*, the backward walk one
         # set per *op*.  The per-function counts arrive as a zipped pair; the doubled component must be the one zipped from
         # function_blocks, the other the one from function_ops (both are u32: a swap still compiles).
